@@ -246,8 +246,37 @@ def _scribble(w):
                 f *= -3.0; f += 7.0
 
 
+_TWINS = []          # decoy instances are kept alive: their (changed) state must never matter to anybody else
+
+
+def _twin(M, w, **kw):
+    """ANOTHER instance constructed with equal arguments, whose filters are then overwritten in place through the standard
+    nn.Module API (load_state_dict of a same-shaped checkpoint): instances own their state, equal construction arguments or not"""
+    import copy
+    try:
+        w2 = copy.deepcopy(w)
+        tw = M(wave=w2, **kw)
+        with torch.no_grad():
+            sd = {k: (v.flip(-1) * 1.5 + 0.25 if v.is_floating_point() and v.numel() else v.clone()) for k, v in tw.state_dict().items()}
+            tw.load_state_dict(sd)
+        _TWINS.append(tw)
+        del _TWINS[:-8]
+    except Exception:
+        pass
+
+
 def _build(M, w, **kw):
+    order = 0
+    if not isinstance(w, str) and os.environ.get('VERIF_NO_TWINS') != '1':
+        try:
+            order = 1 + _hashlib.sha1(repr([np.asarray(f).tolist() for f in w]).encode()).digest()[2] % 3     # 1: twin first, 2: twin after, 3: none
+        except Exception:
+            order = 0
+    if order == 1:
+        _twin(M, w, **kw)
     mod = M(wave=w, **kw)
+    if order == 2:
+        _twin(M, w, **kw)
     _scribble(w)
     return mod
 
